@@ -789,6 +789,68 @@ def _check_maximum(ctx: Ctx, fun) -> None:
     ctx.check("R4", pm_ok and jac_patch_sites >= 3 and idxs == [0, 1], fun, q, fn,
               f"Jacobian rows must be patched at the same index set `{inds}` from the second argument's Jacobian",
               construct="maximum: jacobian patch", facts={"sites": jac_patch_sites})
+    _check_maximum_row_format(ctx, fun, fn, q, mj)
+
+
+def _check_maximum_row_format(ctx: Ctx, fun, fn, q: str, mj: str) -> None:
+    """`inds` index entries of the value vector = ROWS of the Jacobian, so the sparse patch `merge_matrices(jac, lines, inds, fmt)`
+    must run in the row-compressed format whatever the format of the incoming Jacobian (AdArray accepts any scipy format;
+    initAdArrays itself builds csc blocks): fmt must denote "csr" and the patched matrix must have been converted to csr on
+    every path. A format that may be "csc" replaces columns (or makes merge_matrices raise: the lines are sliced as csr)."""
+    from ..core.astutil import parent_map
+    pm = parent_map(fn)
+    merges = [s for s in walk_local(fn) if isinstance(s, ast.Call) and call_name(s) == "merge_matrices"]
+    if not merges:
+        return  # dense-only implementation: nothing to decide here (the jacobian-patch obligation above covers the sites)
+    # conversions of the patched matrix to csr, and whether they are conditional on its format
+    conv_uncond, conv_cond = [], []
+    for s in walk_local(fn):
+        if isinstance(s, ast.Assign) and len(s.targets) == 1 and u(s.targets[0]) == mj and isinstance(s.value, ast.Call) \
+                and isinstance(s.value.func, ast.Attribute) and s.value.func.attr in ("tocsr", "asformat") :
+            if s.value.func.attr == "asformat" and not (s.value.args and isinstance(s.value.args[0], ast.Constant) and s.value.args[0].value == "csr"):
+                continue
+            p, cond = pm.get(s), False
+            while p is not None and p is not fn:
+                if isinstance(p, ast.If) and any(isinstance(n, ast.Constant) and n.value in ("csc", "csr") for n in ast.walk(p.test)):
+                    cond = True
+                if isinstance(p, ast.If) and "getformat" in u(p.test):
+                    cond = True
+                p = pm.get(p)
+            (conv_cond if cond else conv_uncond).append(s)
+    for c in merges:
+        fmt = c.args[3] if len(c.args) >= 4 else kwarg(c, "matrix_format")
+        if fmt is None:
+            raise Undecided("maximum: merge_matrices call without a format argument")
+        line = c.lineno
+        before_uncond = [s for s in conv_uncond if s.lineno < line]
+        before_cond = [s for s in conv_cond if s.lineno < line]
+        if isinstance(fmt, ast.Constant):
+            if fmt.value == "csr":
+                ok = bool(before_uncond)
+                if not ok and not before_cond:
+                    raise Undecided("maximum: merge in csr format but no recognisable `.tocsr()` conversion of the patched Jacobian")
+            elif fmt.value == "csc":
+                ok = False
+            else:
+                raise Undecided(f"maximum: unknown format constant {fmt.value!r}")
+        elif u(fmt) == f"{mj}.getformat()" or u(fmt) == f"{mj}.format":
+            if before_uncond:
+                ok = True
+            elif before_cond:
+                ok = False  # converted only when not csc (or similar): the format handed on may be "csc"
+            else:
+                raise Undecided("maximum: format taken from the patched Jacobian, no recognisable conversion")
+        else:
+            raise Undecided(f"maximum: merge_matrices format argument `{u(fmt)}` not interpretable")
+        ctx.check("R4", ok, fun, q, c,
+                  f"the Jacobian patch replaces ROWS `{inds_txt(c)}`: merge_matrices must run in csr format on a matrix converted to csr on every "
+                  f"path; here the format is `{u(fmt)}` with {len(before_uncond)} unconditional / {len(before_cond)} format-conditional "
+                  f"conversion(s): a csc Jacobian (legal AdArray input) gets columns replaced or raises ValueError",
+                  construct="maximum: jacobian patch runs in row format")
+
+
+def inds_txt(c: ast.Call) -> str:
+    return u(c.args[2]) if len(c.args) >= 3 else "?"
 
 
 def _check_l2norm(ctx: Ctx, fun) -> None:
@@ -904,6 +966,12 @@ MUTANTS = [
     _m("seed-pow-array-reuses-power-divides-by-val", "new_jac = self._diagvec_mul_jac(other * (self.val ** (other - 1)))", "new_jac = self._diagvec_mul_jac(other * new_val / self.val)", "R3", file=FWD),
     _m("seed-ctor-no-copy", "        self.jac: sps.spmatrix = jac.astype(float)", "        self.jac: sps.spmatrix = jac.astype(float, copy=False)", "R5", file=FWD),
     _m("seed-maximum-scalar-clip-keeps-jac", "        vals[1] = np.ones_like(vals[0]) * vals[1]\n", "        return AdArray(np.maximum(vals[0], vals[1]), jacs[0])\n", "R4"),
+    _m("revert-fix-maximum-keeps-csc", "        is_csc = max_jac.getformat() == \"csc\"\n        max_jac = max_jac.tocsr()\n",
+       "        is_csc = False\n        if not max_jac.getformat() == \"csc\":\n            max_jac = max_jac.tocsr()\n", "R4"),
+    _m("maximum-merge-in-own-format", "pp.matrix_operations.merge_matrices(max_jac, lines, inds, \"csr\")",
+       "pp.matrix_operations.merge_matrices(max_jac, lines, inds, jacs[0].getformat())", "R4", accept_undecided=True),
+    _m("maximum-merge-csc-constant", "pp.matrix_operations.merge_matrices(max_jac, lines, inds, \"csr\")",
+       "pp.matrix_operations.merge_matrices(max_jac, lines, inds, \"csc\")", "R4"),
     _m("revert-fix-safe-power", "    jac_vals[nonzero_inds] = power * _val[nonzero_inds] ** (power - 1.0)", "    jac_vals[nonzero_inds] = power * vals[nonzero_inds] ** (power - 1.0)", "R1", control=True),
     _m("safe-power-nonzero-derivative-off-mask", "    jac_vals = np.zeros_like(vals)\n", "    jac_vals = np.ones_like(vals)\n", "R1"),
     _m("cos-jac-sign", "jac = var._diagvec_mul_jac(-np.sin(var.val))", "jac = var._diagvec_mul_jac(np.sin(var.val))", "R1", control=True),
